@@ -17,7 +17,7 @@ RULE = ("Packages from (1) Hypothesis-generated designs (C01 generator, all feat
         "spice and spectre netlisters must accept it (netlisters only when no hdl21.primitives reference). Non-trivial = >=2 "
         "modules and a slice/concat target or an external module; distinct by package bytes hash.")
 ASSUME = ["the closure rules are read from the VLSIR schema and the property statement",
-          "vlsirtools netlisters reject hdl21.primitives by design: such packages are only closure- and import-checked"]
+          "vlsirtools netlisters reject hdl21.primitives, and two external modules of one name (in different domains), by design: such packages are only closure- and import-checked"]
 
 
 def eval_design(spec):
@@ -120,7 +120,7 @@ def shard(idx, n, tier):
     @hypothesis.seed(env.subseed(PID, idx))
     @settings(max_examples=nex, database=None, deadline=None, derandomize=False,
               suppress_health_check=list(HealthCheck), phases=[Phase.generate], report_multiple_bugs=False)
-    @given(gen.designs(gen.Opts()))
+    @given(gen.designs(gen.Opts(same_name_ext=True)))
     def run(spec):
         v = par.pristine(eval_design, spec)
         if par.is_exc(v):
